@@ -103,6 +103,7 @@ type HarnessResult struct {
 	TimedOut    bool
 	MaxDepth    int
 	Sigs        map[string]int
+	DoneTapes   [][]TapeEntry
 }
 
 type job struct {
@@ -146,6 +147,7 @@ type Worker struct {
 	proved  map[string]int64
 	funcs   map[string]string
 	samples []map[string]interface{}
+	doneTapes [][]TapeEntry
 	inconcl []string
 	maxDepth int
 }
@@ -246,6 +248,9 @@ func (w *Worker) mergeStats() {
 		r.Samples = append(r.Samples, w.samples...)
 	}
 	r.Inconclusive = append(r.Inconclusive, w.inconcl...)
+	if len(r.DoneTapes) < 4 {
+		r.DoneTapes = append(r.DoneTapes, w.doneTapes...)
+	}
 	if w.usedOpaque {
 		r.UsedOpaque = true
 	}
@@ -475,6 +480,23 @@ func (w *Worker) runPath() {
 	case PathDone:
 		if len(w.samples) < 2 {
 			w.samples = append(w.samples, in.sample())
+		}
+		if len(w.doneTapes) < 1 && w.ensureModelQuiet() {
+			var tp []TapeEntry
+			for _, e := range in.tape {
+				te := e
+				if e.Term != nil {
+					te.Val = w.model.Eval(e.Term)
+				}
+				if e.KeyTerms != nil {
+					te.Key = make([]int, len(e.KeyTerms))
+					for i, kt := range e.KeyTerms {
+						te.Key[i] = int(w.model.Eval(kt))
+					}
+				}
+				tp = append(tp, te)
+			}
+			w.doneTapes = append(w.doneTapes, tp)
 		}
 	}
 	total := int64(0)
